@@ -482,6 +482,8 @@ static int ref_search(int *so, int *eo)
 		if (pos >= M_len)
 			return 0;
 		pos += m_clen(pos);
+		if (pos >= M_len && M_s[M_len - 1] == '\n')
+			return 0;	/* the position after the terminating newline is not part of the line */
 	}
 }
 #endif
